@@ -3,6 +3,7 @@
 use crate::gen::asmtext::{self, Opts};
 use crate::json::J;
 use crate::refmodel::asm::{encode, Unencodable};
+use crate::refmodel::grammar::{recognise, Verdict};
 use crate::report::{Meta, Report};
 use crate::rng::Rng;
 use crate::util::{catch, hex, par_items};
@@ -16,7 +17,7 @@ pub fn meta() -> Meta {
         rule: "(a) every instruction form x operand shape x register (enumerated exhaustively, about 2 300 shapes incl. number and label operands) is placed after a seeded random prefix of directives (.ORG forward, .BYTE n, .DB, .DW, .EQU, label definitions) and followed by a random suffix, with forward/backward/mixed-case label references; (b) seeded random multi-line programs from the grammar generator (text -> real parser -> real translator). The translator's per-line byte groups, reported lines, *STACKSIZE/*PROGRAMSIZE and the concatenated image are compared with the reference encoder; for (b) the image assembled from the text is also compared with the reference encoding of the program the generator wrote, so a line that the parser reads as another instruction shows as a wrong image. distinct_nontrivial counts distinct (instruction shape, preceding-layout class) pairs whose bytes were compared",
         exhaustive: false,
         assumptions: vec!["refmodel::asm is the documented encoding (instruction table + statement of C02)", "programs outside the quantifier (image > 240 bytes, backward .ORG) are not generated here; C06 owns them"],
-        floors: vec![("texts_checked_against_written_program", 100_000), ("shapes_enumerated", 2_000), ("shape_programs_compared", 20_000), ("random_programs_compared", 5_000), ("label_refs_after_byte_or_org", 1_000), ("mixed_case_refs", 1_000), ("relative_jumps_backward", 30), ("relative_jumps_forward", 30)],
+        floors: vec![("texts_checked_against_written_program", 100_000), ("long_sources", 2_000), ("sources_with_similar_long_names", 2_000), ("shapes_enumerated", 2_000), ("shape_programs_compared", 20_000), ("random_programs_compared", 5_000), ("label_refs_after_byte_or_org", 1_000), ("mixed_case_refs", 1_000), ("relative_jumps_backward", 30), ("relative_jumps_forward", 30)],
     }
 }
 
@@ -232,6 +233,64 @@ fn witness(asm: &Asm, text: Option<&str>) -> J {
     obj![("ast", format!("{:?}", asm)), ("text", text.unwrap_or("")), ("rendered", asm.lines.iter().map(|l| format!("{}", l)).collect::<Vec<_>>())]
 }
 
+/// 260-700 source lines, most of them without bytes (comments, empty lines, directives), a few
+/// labels near the top and the bottom, and references to them on lines far beyond line 255.
+fn long_source(rng: &mut Rng) -> String {
+    let mut t = String::from("#! mrasm\ntop:\n NOP\nsecond: ; near the top\n .EQU k 7\n");
+    let pad = 255 + rng.usize(450);
+    for j in 0..pad {
+        match rng.below(6) {
+            0 => t.push('\n'),
+            1 => t.push_str(&format!("; line {}\n", j)),
+            2 => t.push_str("    ; indented comment\n"),
+            3 => t.push_str(&format!("*STACKSIZE {}\n", [0, 16, 32, 48, 64][rng.usize(5)])),
+            4 => t.push_str(&format!("; note {} --\n", j)),
+            _ => t.push_str(" \t \n"),
+        }
+    }
+    t.push_str("late:\n");
+    let n = 4 + rng.usize(12);
+    for _ in 0..n {
+        let l = *rng.pick(&["top", "second", "late", "end", "TOP", "k", "Late", "End"]);
+        match rng.below(8) {
+            0 => t.push_str(&format!(" JR {}\n", l)),
+            1 => t.push_str(&format!(" CALL {}\n", l)),
+            2 => t.push_str(&format!(" JMP {}\n", l)),
+            3 => t.push_str(&format!(" LD R1, ({})\n", l)),
+            4 => t.push_str(&format!(" ST ({}), R2\n", l)),
+            5 => t.push_str(&format!(" JZS {}\n", l)),
+            6 => t.push_str(&format!(" LD R0, {}\n", l)),
+            _ => t.push_str("\n; in between\n"),
+        }
+    }
+    t.push_str("end:\n .DB 1, 2\n");
+    t
+}
+
+/// Labels and .EQU names of 12-40 characters that share all but their last characters.
+fn similar_names_source(rng: &mut Rng) -> String {
+    let stem: String = (0..(11 + rng.usize(28))).map(|i| (b'a' + ((i * 7 + 3) % 26) as u8) as char).collect();
+    let names: Vec<String> = vec![format!("{}_a", stem), format!("{}_b", stem), format!("{}x", stem), stem.clone(), format!("{}_a1", stem)];
+    let mut t = String::from("#! mrasm\n");
+    t.push_str(&format!("{}:\n NOP\n", names[0]));
+    t.push_str(&format!(" .EQU {} {}\n", names[2], 100 + rng.below(100)));
+    t.push_str(&format!("{}: ; second\n INC R0\n INC R1\n", names[1].to_uppercase()));
+    t.push_str(&format!(" .EQU {} {}\n", names[4], rng.below(100)));
+    for _ in 0..(4 + rng.usize(8)) {
+        let l = &names[rng.usize(5)];
+        let l = if rng.bool() { l.to_uppercase() } else { l.clone() };
+        match rng.below(5) {
+            0 => t.push_str(&format!(" JR {}\n", l)),
+            1 => t.push_str(&format!(" CALL {}\n", l)),
+            2 => t.push_str(&format!(" LD R1, ({})\n", l)),
+            3 => t.push_str(&format!(" LD R2, {}\n", l)),
+            _ => t.push_str(&format!(" JMP {}\n", l)),
+        }
+    }
+    t.push_str(&format!("{}:\n STOP\n", names[3]));
+    t
+}
+
 pub fn run(ctx: &Ctx) -> Report {
     let rounds = ctx.size(200, 900) as usize;
     let random_programs = ctx.size(1_500_000, 20_000_000) as usize;
@@ -278,7 +337,30 @@ pub fn run(ctx: &Ctx) -> Report {
         }
         let opts = Opts::layout();
         for k in 0..200 {
-            let g = asmtext::program(&mut rng, &opts);
+            let mut g = asmtext::program(&mut rng, &opts);
+            if k % 50 == 17 {
+                // a long source: hundreds of lines without bytes, references far down the file
+                g.text = long_source(&mut rng);
+                g.asm = match recognise(&g.text) {
+                    Verdict::Accept(a) => a,
+                    other => {
+                        rep.inconclusive(format!("harness bug: long source not accepted by the reference grammar: {:?}", format!("{:?}", other).chars().take(200).collect::<String>()));
+                        continue;
+                    }
+                };
+                rep.inc("long_sources");
+            } else if k % 50 == 33 {
+                // names that only differ after many characters
+                g.text = similar_names_source(&mut rng);
+                g.asm = match recognise(&g.text) {
+                    Verdict::Accept(a) => a,
+                    other => {
+                        rep.inconclusive(format!("harness bug: similar-names source not accepted by the reference grammar: {:?}", format!("{:?}", other).chars().take(200).collect::<String>()));
+                        continue;
+                    }
+                };
+                rep.inc("sources_with_similar_long_names");
+            }
             rep.evaluations += 1;
             let parsed = match catch(|| AsmParser::parse(&g.text)) {
                 Ok(Ok(a)) => a,
